@@ -16,6 +16,29 @@ CHECKS = {
         "DESIGN.md §2 C17",
     ),
 }
+CHECKS.update({
+    "C14": (
+        "exploration",
+        "Hypothesis generated sky positions/distances vs 50-digit mpmath reference with explicit error bounds",
+        "Generated-input search over a mixture built to reach poles, the RA seam, tiny and (near-)antipodal separations; every primitive is compared with an mpmath evaluation of the exact formula on the same binary inputs under frozen, explicit error bounds. Exploration: the input domain is continuous.",
+        "mpmath as reference; bounds are constants in props/c14_geometry.py chosen with >=4x margin over the worst observed error",
+        "DESIGN.md §2 C14",
+    ),
+    "C03": (
+        "exploration",
+        "Hypothesis generated pair-count containers and catalogs vs explicit delete-patch-k recomputation and loop-based jackknife covariance",
+        "Generated-input search: containers with exactly representable entries make the library's subtract-from-total shortcut and the oracle's explicit deletion agree exactly; end-to-end cases re-create catalogs without patch k and re-measure. Exploration over unbounded array contents.",
+        "dyadic entries for exact comparison; degenerate (non-finite) bins not judged; bounded sizes (<=7 patches, <=5 bins)",
+        "DESIGN.md §2 C03",
+    ),
+    "C04": (
+        "exploration",
+        "Hypothesis generated CorrFunc/CorrData/HistData vs documented estimator and n(z) formulas evaluated on array totals",
+        "Generated-input search over all member subsets, auto/cross, unequal bin widths, NaN/negative data; oracle evaluates the documented formulas from totals of the generated arrays. Exploration over unbounded contents.",
+        "LS without dr not judged; degenerate bins not judged",
+        "DESIGN.md §2 C04",
+    ),
+})
 NOT_YET = {}
 
 props = [json.loads(l) for l in (VERIF / "properties.jsonl").read_text().splitlines() if l.strip()]
